@@ -290,10 +290,30 @@ func openAndAbandon(ch *inprocgrpc.Channel, kind string) error {
 // for a dropped in-process stream.  The parked send must then return (an error), having completed no more
 // sends than the buffer holds.
 func abandonedStreams(o *hx.Out) {
-	for id, kind := range []string{"SS", "BD"} {
+	for id, kind := range []string{"SS", "BD", "BD, after an unrelated dropped stream whose handler is slow to notice its context"} {
 		var completed int32
 		sendEnded := make(chan error, 1)
 		ch := &inprocgrpc.Channel{}
+		if id == 2 {
+			// streams are independent: an unrelated stream, dropped earlier, whose handler does not watch its
+			// context (busy elsewhere for a long time) does not delay the release of this one
+			kind = "BD"
+			busy := make(chan struct{})
+			defer close(busy)
+			other := &inprocgrpc.Channel{}
+			other.RegisterService(hx.Desc(hx.SvcName), &hx.Svc{Stream: func(k string, ss grpc.ServerStream) error {
+				select {
+				case <-busy:
+				case <-time.After(20 * time.Second):
+				}
+				return nil
+			}})
+			openAndAbandon(other, "BD")
+			for i := 0; i < 4; i++ {
+				runtime.GC()
+				time.Sleep(30 * time.Millisecond)
+			}
+		}
 		ch.RegisterService(hx.Desc(hx.SvcName), &hx.Svc{Stream: func(k string, ss grpc.ServerStream) error {
 			ss.RecvMsg(&hx.Msg{})
 			for {
@@ -325,11 +345,11 @@ func abandonedStreams(o *hx.Out) {
 			}
 		}
 		ok := err == nil && released && sendErr != "" && ahead <= 1 && atomic.LoadInt32(&completed) == ahead
-		d := map[string]interface{}{"transport": "inprocgrpc", "stream_kind": kind, "scenario": "the caller's context never ends; the stream is dropped unread; the garbage collector runs",
+		d := map[string]interface{}{"transport": "inprocgrpc", "stream_kind": kind, "scenario": "the caller's context never ends; the stream is dropped unread; the garbage collector runs", "after_an_unrelated_dropped_stream_with_a_busy_handler": id == 2,
 			"sends_completed_with_no_receiver": ahead, "parked_send_released": released, "parked_send_error": sendErr, "new_stream_error": fmt.Sprint(err)}
 		if !ok {
 			o.Violate("a handler parked in SendMsg on a stream its caller has dropped was not released when the stream's context ended", d, released, true)
 		}
-		goChecked(o, "abandoned_stream_"+kind, 9000+id, ok, d)
+		goChecked(o, fmt.Sprintf("abandoned_stream_%s_%d", kind, id), 9000+id, ok, d)
 	}
 }
